@@ -129,6 +129,6 @@ def patterns_for(kind):
     return NULLPATS if kind in NULLABLE_KINDS else ["none"]
 
 
-N_QUICK = [0, 1, 2, 9]
+N_QUICK = [0, 1, 2, 8, 9]
 N_THOROUGH = [0, 1, 2, 7, 8, 9, 63, 64, 65]
 N_BIG = [8191, 8192, 8193]
